@@ -38,11 +38,13 @@ func off(class string) bool {
 	return false
 }
 
+const classK11 = "K11 lambda whose expression starts with a parenthesised regex literal (the formatter drops the parentheses; after 'lambda:' the lexer reads '/' as division)"
 const classK6 = "K6 format stability: line breaks after binary operators creep one nesting level per pass (reaches a fixpoint later, layout only)"
 const classK7 = "K7 comment positions in a var declaration's constant expression that the formatter prints directly after '=' (before a - AND OR operator on the left spine, inside the operand of a leading unary operator)"
 
 var (
 	reCommentAfterAssign = regexp.MustCompile(`(?m)(=|=~|!~)[ \t]*\r?\n[ \t\r\n]*//`)
+	reLambdaLeadingRegex = regexp.MustCompile(`lambda:[ \t\r\n]*/[^/]`)
 	reCommentBeforeRegex = regexp.MustCompile(`(?m)^[ \t]*//[^\n]*\n(?:[ \t]*\n)*[ \t]*/(?:[^/\n]|$)`)
 )
 
@@ -51,6 +53,7 @@ var (
 //
 //	comment-after-assign   a comment printed directly after = =~ !~ ("//" is lexed as an empty regex there)
 //	comment-before-regex   a comment line directly followed by a line starting with a regex literal
+//	lambda-leading-regex   "lambda: /re/…": the parentheses of `lambda: (/re/)` were dropped (after "lambda:" a '/' is lexed as division)
 //	dbrp-quote             a dbrp statement whose names contain a double quote (printed unescaped)
 func formatDefectClass(original ast.Node, formatted string) string {
 	if prog, ok := original.(*ast.ProgramNode); ok {
@@ -68,6 +71,9 @@ func formatDefectClass(original ast.Node, formatted string) string {
 	if reCommentBeforeRegex.MatchString(formatted) {
 		return "comment-before-regex"
 	}
+	if reLambdaLeadingRegex.MatchString(formatted) {
+		return "lambda-leading-regex"
+	}
 	return "unclassified"
 }
 
@@ -81,6 +87,8 @@ func knownFormatClass(class string) string {
 		return classK10
 	case "dbrp-quote":
 		return classK9
+	case "lambda-leading-regex":
+		return classK11
 	}
 	return ""
 }
